@@ -493,7 +493,7 @@ PROPS["C19"] = {
                    "MSM payloads), corrupted frames, junk and payloads rich in '<', '>', '</div>', '<script>', in generated chunkings and pauses in both directions; both "
                    "byte streams must arrive unchanged, the process must survive, and /status/report must match the fixed template with markup-free traffic sections and "
                    "list only frames that are contiguous parts of the relayed client-to-server traffic. The same template oracle runs in-process on ReportFeed.Status "
-                   "for thousands of generated buffers and message lists. TLS mode and several simultaneous clients are outside the statement."),
+                   "for thousands of generated buffers and message lists. A quarter of the sessions run through a second proxy process in TLS mode (-s) with a TLS 1.2 or 1.3 client; several simultaneous clients are outside the statement."),
     "rule": ("relay: (client->server pieces + chunk/pause script, server->client pieces + script, fetch report or not); report: (client buffer, server buffer, message pieces, "
              "buffers present or not). Non-trivial = the session carries a 0xD3-led frame and markup bytes / the traffic contains '<' or '>' and at least one message is "
              "listed; distinct = distinct case hash."),
@@ -506,3 +506,39 @@ PROPS["C19"] = {
         Leg("relay", "c19", "^TestRelay$", engine="process", app=["proxy"], checks=(40, 5000), shards=(8, 16), tests=["relay"], replay_attempts=3),
     ],
 }
+
+
+# Environment legs added for every stream-, decoder- and pipeline-level property that had none: the same
+# generated cases on a 32-bit build (GOARCH=386: int and uint are 32 bits wide, 64-bit fields of structs are only
+# 4-byte aligned) and in a mount namespace without a time-zone database.  Small budgets - the point is the
+# environment, not the volume.
+def _env_legs():
+    table = [
+        # (property, package, test, replay name, (quick, thorough) checks for the 386 leg, no-tzdata too?)
+        ("C01", "c01", "^TestStream$", "stream", (600, 15000), True),
+        ("C02", "c02", "^TestStream$", "stream", (600, 15000), True),
+        ("C03", "c03", "^TestStream$", "stream", (1500, 30000), True),
+        ("C04", "c04", "^TestMessage$", "message", None, True),
+        ("C05", "c05", "^TestMessage$", "message", None, True),
+        ("C07", "c07", "^TestFrame$", "frame", (4000, 40000), False),
+        ("C07", "c07", "^TestStream$", "stream", (500, 8000), False),
+        ("C08", "c08", "^TestCell$", "cell", None, True),
+        ("C09", "c09", "^TestPipeline$", "pipeline", (120, 3000), True),
+        ("C10", "c10", "^TestFilter$", "filter", (60, 2000), True),
+        ("C11", "c11", "^TestReturn$", "return", (20, 600), False),
+        ("C12", "c12", "^TestFault$", "fault", (1500, 30000), True),
+        ("C13", "c13", "^TestScript$", "script", (60, 1500), False),
+        ("C19", "c19", "^TestReport$", "report", (500, 20000), False),
+    ]
+    for pid, pkg, test, name, c386, notz in table:
+        legs = PROPS[pid]["legs"]
+        have = {l.name for l in legs}
+        engine = "sched" if pkg in ("c09", "c10", "c11", "c13") else "rapid-PBT"
+        if c386 and name + "-386" not in have:
+            legs.append(Leg(name + "-386", pkg, test, engine=engine, goarch="386", checks=c386, shards=(2, 8), tests=[name], replay_attempts=3))
+        if notz and name + "-no-tzdata" not in have:
+            q = c386 or (1500, 30000)
+            legs.append(Leg(name + "-no-tzdata", pkg, test, engine=engine, wrap="no-tzdata", env={"ZONEINFO": ""}, checks=q, shards=(1, 8), tests=[name], replay_attempts=3))
+
+
+_env_legs()
